@@ -417,9 +417,44 @@ func subrSeed(t *rapid.T) []byte {
 			// 1, -1 and just beyond the stack depth all occur): no statement
 			// fails for a reason of form, so every one of them is executed
 			depth := 0
+			huge := func() []byte {
+				// +-32767 divided one to three times by 1/65536 (div results
+				// are not bound to the 16.16 range of literal operands)
+				v := []byte{28, 0x7F, 0xFF}
+				if rapid.Bool().Draw(t, lab+"HugeNeg") {
+					v = []byte{28, 0x80, 0x01}
+				}
+				for d := rapid.IntRange(1, 3).Draw(t, lab+"HugeDivs"); d > 0; d-- {
+					v = append(v, 255, 0, 0, 0, 1, 12, 12)
+				}
+				return v
+			}
 			for i := rapid.IntRange(1, 12).Draw(t, lab+"Stmts"); i > 0; i-- {
+				if rapid.IntRange(0, 5).Draw(t, lab+"ValidRoll") == 0 {
+					// v1 .. vn  n  J  roll, then n drops: a roll that is valid
+					// whatever came before, with a shift of any magnitude
+					n := rapid.IntRange(1, 4).Draw(t, lab+"RollN")
+					for k := 0; k < n; k++ {
+						b = append(b, num(k)...)
+					}
+					b = append(b, num(n)...)
+					if rapid.Bool().Draw(t, lab+"RollHuge") {
+						b = append(b, huge()...)
+					} else {
+						b = append(b, num(rapid.SampledFrom(small).Draw(t, lab+"RollJ"))...)
+					}
+					b = append(b, 12, 30)
+					for k := 0; k < n; k++ {
+						b = append(b, 12, 18)
+					}
+					continue
+				}
 				ar := rapid.SampledFrom(arith).Draw(t, lab+"Arith")
 				for k := 0; k < ar[1]; k++ {
+					if rapid.IntRange(0, 5).Draw(t, lab+"Huge") == 0 {
+						b = append(b, huge()...) // an operand of enormous magnitude
+						continue
+					}
 					b = append(b, num(rapid.SampledFrom(small).Draw(t, lab+"Small"))...)
 				}
 				b = append(b, 12, byte(ar[0]))
